@@ -2,7 +2,7 @@
    (xprotocol/<proto>/matcher.go, stream/http/stream.go ProtocolMatch, stream/http2/stream.go ProtocolMatch) and
    protocol/api.go SelectStreamFactoryProtocol.  ONLY executable definitions. *)
 From Coq Require Import List NArith Bool.
-From MV Require Import Lib.Bytes Gen.ProtoConsts.
+From MV Require Import Lib.Bytes Gen.ProtoConsts Gen.CodecSrc.
 Import ListNotations.
 Open Scope N_scope.
 
@@ -21,10 +21,13 @@ Definition dubbo_match (b : bytes) : mres :=
   if blen b <? dubbo_HeaderLen then MAgain
   else if (byte_at b 0 =? dubbo_Magic0) && (byte_at b 1 =? dubbo_Magic1) then MSuccess else MFailed.
 
-(* thriftMatcher: 6 bytes, magic 0xdabc behind the length prefix *)
-Definition thrift_match (b : bytes) : mres :=
+(* thriftMatcher: 6 bytes; [first byte of the length prefix zero - the repaired matcher, switch from the source];
+   magic 0xdabc behind the length prefix *)
+Definition thrift_match_sw (first_zero : bool) (b : bytes) : mres :=
   if blen b <? thrift_MessageLenSize + thrift_MagicLen then MAgain
+  else if first_zero && negb (byte_at b 0 =? 0) then MFailed
   else if (byte_at b 4 =? thrift_Magic0) && (byte_at b 5 =? thrift_Magic1) then MSuccess else MFailed.
+Definition thrift_match : bytes -> mres := thrift_match_sw thrift_match_first_zero.
 
 (* tarsMatcher: 6 bytes; data[4] == 16 && data[5] in {1,3}; then TarsRequest: LESS -> Again, ERROR -> Failed, FULL -> Success *)
 Definition tars_match (b : bytes) : mres :=
